@@ -686,6 +686,27 @@ def template_axioms():
     ]
 
 
+# --------------------------------------------------------------------------- contract of labrea.iterable.Map._iter (sidecar; see contracts/map_iter.py)
+ITERok = F("ITERok", Ev, Opt, B)      # the option sets can be built from the evaluated iterables
+ITERv = F("ITERv", Ev, Opt, Ev)       # the expression _iter returns
+ITERexc = F("ITERexc", Ev, Opt, Exc)
+idiff = F("idiff", Ev, Opt, Opt, I)
+
+
+def map_iter_axioms():
+    """Map._iter(o) depends on o only through the values of the iterables (obligation Map._iter:frame)"""
+    s = z3.Const("s!mi", Ev)
+    o, o2 = z3.Consts("o!mi o2!mi", Opt)
+    n = z3.Function("fld!Map.iterables#n", Ev, I)
+    itv = z3.Function("fld!Map.iterables#val", Ev, I, Ev)
+    d = idiff(s, o, o2)
+    differ = z3.And(d >= 0, d < n(s), EVval(itv(s, d), o) != EVval(itv(s, d), o2))
+    return [
+        z3.ForAll([s, o, o2], z3.Implies(ITERv(s, o) != ITERv(s, o2), differ), patterns=[z3.MultiPattern(ITERv(s, o), ITERv(s, o2))]),
+        z3.ForAll([s, o, o2], z3.Implies(ITERok(s, o) != ITERok(s, o2), differ), patterns=[z3.MultiPattern(ITERok(s, o), ITERok(s, o2))]),
+    ]
+
+
 def call_axioms():
     f, a = z3.Consts("f! a!", Val)
     x = call_exc(f, a)
